@@ -3,6 +3,8 @@
   under a framework's style, and the correspondence with `typingCode`.
 -/
 import J2M.Render
+import J2M.LexRepr
+import J2M.Proofs.StringsLex
 namespace J2M.Rend
 
 open J2M
@@ -417,5 +419,388 @@ end
 
 theorem noLit_of_attrs {c : RenderCfg} (h : c.fw = .attrs) : NoLit c := by
   left; simp [RenderCfg.useLiterals, h]; decide
+
+/-! ## field lines -/
+
+/-- `meta.type` of an `Optional`, the type itself otherwise -/
+def optInner : Ty → Ty
+  | .opt x => x
+  | x => x
+
+/-- which default a field gets -/
+inductive DefaultKind where
+  | none | emptyList | emptyDict
+  deriving Repr, DecidableEq
+
+/-- a default exactly for optional fields; the empty-container factories exactly for list / dict inner types -/
+def defaultKind (optional : Bool) (t : Ty) : Option DefaultKind :=
+  if optional then
+    some (if (optInner t).isList then .emptyList else if (optInner t).isDict then .emptyDict else .none)
+  else Option.none
+
+/-- the keyword arguments naming the original key, where the framework writes one (attrs/dataclasses `meta`) -/
+def metaKw (c : RenderCfg) (o : RenderOracles) (key name : String) : List (String × String) :=
+  if c.withMeta && key != name then
+    [("metadata", "{" ++ pyRepr o.isPrintable c.metadataFieldName ++ ": " ++ pyRepr o.isPrintable key ++ "}")]
+  else []
+
+/-! ### pydantic / sqlmodel -/
+
+def pydDefaultText : DefaultKind → String
+  | .none => "None" | .emptyList => "[]" | .emptyDict => "{}"
+
+def pydAliasKw (key name : String) : List (String × String) :=
+  if key != name then [("alias", jsonDumps false key)] else []
+
+def sqlPkKw (c : RenderCfg) (name : String) (t : Ty) : List (String × String) :=
+  if c.fw == .sqlmodel && (name == "id" || name == "pk") && t.isInt then [("primary_key", "True")] else []
+
+/-- right-hand side of a pydantic/sqlmodel field -/
+def pydBody (d : Option String) (kw : List (String × String)) : String :=
+  if kw.isEmpty then (match d with | some d => " = " ++ d | Option.none => "")
+  else " = Field(" ++ d.getD "..." ++ ", " ++ renderKwargs kw ++ ")"
+
+/-- the pydantic/sqlmodel branch of `fieldLine`, with the two `Except` steps resolved -/
+theorem fieldLine_pyd_raw {c : RenderCfg} {o : RenderOracles} {e : RefEnv} {key : String} {t : Ty} {optional : Bool}
+    {imps : List Imp} {typing name : String}
+    (hfw : c.fw = .pydantic ∨ c.fw = .sqlmodel)
+    (hty : typingCode c e t = .ok (imps, typing)) (hn : convertFieldName c o key = .ok name) :
+    fieldLine c o e key t optional =
+      (let inner := optInner t
+       let line := name ++ ": " ++ typing
+       let default : Option String :=
+         if optional then some (if inner.isList then "[]" else if inner.isDict then "{}" else "None") else Option.none
+       let kw := (if key != name then [("alias", jsonDumps false key)] else []) ++
+         (if c.fw == .sqlmodel && (name == "id" || name == "pk") && t.isInt then [("primary_key", "True")] else [])
+       if !kw.isEmpty then
+         .ok (imps, line ++ " = Field(" ++ default.getD "..." ++ ", " ++ renderKwargs kw ++ ")")
+       else match default with
+         | some d => .ok (imps, line ++ " = " ++ d)
+         | Option.none => .ok (imps, line)) := by
+  rcases hfw with hfw | hfw
+  · simp only [fieldLine, hty, hn, bind, Except.bind, hfw]; rfl
+  · simp only [fieldLine, hty, hn, bind, Except.bind, hfw]; rfl
+
+theorem pydDefault_eq (optional : Bool) (t : Ty) :
+    (if optional then some (if (optInner t).isList then "[]" else if (optInner t).isDict then "{}" else "None")
+      else Option.none) = (defaultKind optional t).map pydDefaultText := by
+  unfold defaultKind
+  cases optional
+  · rfl
+  · by_cases h1 : (optInner t).isList = true
+    · simp [h1, pydDefaultText]
+    · by_cases h2 : (optInner t).isDict = true <;> simp [h1, h2, pydDefaultText]
+
+theorem fieldLine_pyd {c : RenderCfg} {o : RenderOracles} {e : RefEnv} {key : String} {t : Ty} {optional : Bool}
+    {imps : List Imp} {typing name : String}
+    (hfw : c.fw = .pydantic ∨ c.fw = .sqlmodel)
+    (hty : typingCode c e t = .ok (imps, typing)) (hn : convertFieldName c o key = .ok name) :
+    fieldLine c o e key t optional =
+      .ok (imps, name ++ ": " ++ typing ++
+        pydBody ((defaultKind optional t).map pydDefaultText) (pydAliasKw key name ++ sqlPkKw c name t)) := by
+  rw [fieldLine_pyd_raw hfw hty hn]
+  simp only [pydDefault_eq]
+  rw [show ((if (key != name) = true then [("alias", jsonDumps false key)] else []) ++
+        (if (c.fw == Framework.sqlmodel && (name == "id" || name == "pk") && t.isInt) = true
+          then [("primary_key", "True")] else [])) = pydAliasKw key name ++ sqlPkKw c name t from rfl]
+  unfold pydBody
+  cases hk : (pydAliasKw key name ++ sqlPkKw c name t).isEmpty
+  · simp [String.append_assoc]
+  · cases (defaultKind optional t).map pydDefaultText <;> simp [String.append_assoc]
+
+
+/-! ### attrs -/
+
+def attrsDefaultKw : Option DefaultKind → List (String × String)
+  | Option.none => []
+  | some .none => [("default", "None")]
+  | some .emptyList => [("factory", "list")]
+  | some .emptyDict => [("factory", "dict")]
+
+/-- the per-field converter of attrs classes generated without post-init converters -/
+def attrsConvKw (c : RenderCfg) (optional : Bool) (t : Ty) : List (String × String) :=
+  if c.postInitEff then [] else
+    if optional then (match optInner t with | .ser k => [("converter", "optional(" ++ k ++ ")")] | _ => [])
+    else (match t with | .ser k => [("converter", k)] | _ => [])
+
+def attrsConvImps (c : RenderCfg) (optional : Bool) (t : Ty) : List Imp :=
+  if c.postInitEff then [] else
+    if optional then (match optInner t with | .ser _ => [⟨"attr.converters", some ["optional"]⟩] | _ => [])
+    else []
+
+/-- the keyword/import computation of the attrs `field_data`, verbatim -/
+def attrsKwRaw (c : RenderCfg) (imps : List Imp) (optional : Bool) (t : Ty) : List (String × String) × List Imp :=
+  let inner := optInner t
+  if optional then
+    if inner.isList then ([("factory", "list")], imps)
+    else if inner.isDict then ([("factory", "dict")], imps)
+    else match inner with
+      | .ser k => if !c.postInitEff then
+          ([("default", "None"), ("converter", "optional(" ++ k ++ ")")], imps ++ [⟨"attr.converters", some ["optional"]⟩])
+        else ([("default", "None")], imps)
+      | _ => ([("default", "None")], imps)
+  else match t with
+    | .ser k => if !c.postInitEff then ([("converter", k)], imps) else ([], imps)
+    | _ => ([], imps)
+
+theorem fieldLine_attrs_raw {c : RenderCfg} {o : RenderOracles} {e : RefEnv} {key : String} {t : Ty} {optional : Bool}
+    {imps : List Imp} {typing name : String}
+    (hfw : c.fw = .attrs)
+    (hty : typingCode c e t = .ok (imps, typing)) (hn : convertFieldName c o key = .ok name) :
+    fieldLine c o e key t optional =
+      .ok ((attrsKwRaw c imps optional t).2, name ++ ": " ++ typing ++ " = attr.ib(" ++
+        renderKwargs (sortKwargs ((attrsKwRaw c imps optional t).1 ++ metaKw c o key name)
+          ["default", "converter", "factory"] ["metadata"]) ++ ")") := by
+  simp only [fieldLine, hty, hn, bind, Except.bind, hfw]; rfl
+
+theorem attrsKwRaw_eq (c : RenderCfg) (imps : List Imp) (optional : Bool) (t : Ty) :
+    attrsKwRaw c imps optional t =
+      (attrsDefaultKw (defaultKind optional t) ++ attrsConvKw c optional t, imps ++ attrsConvImps c optional t) := by
+  unfold attrsKwRaw defaultKind attrsConvKw attrsConvImps
+  cases optional
+  · cases hp : c.postInitEff <;> cases t <;> simp [attrsDefaultKw]
+  · generalize optInner t = inner
+    cases hp : c.postInitEff <;> cases inner <;> simp [attrsDefaultKw, Ty.isList, Ty.isDict]
+
+theorem sortKwargs_attrs (c : RenderCfg) (o : RenderOracles) (key name : String) (optional : Bool) (t : Ty) :
+    sortKwargs (attrsDefaultKw (defaultKind optional t) ++ attrsConvKw c optional t ++ metaKw c o key name)
+        ["default", "converter", "factory"] ["metadata"]
+      = attrsDefaultKw (defaultKind optional t) ++ attrsConvKw c optional t ++ metaKw c o key name := by
+  unfold defaultKind attrsConvKw metaKw
+  cases optional
+  · cases hp : c.postInitEff <;> cases hm : (c.withMeta && key != name) <;> cases t <;>
+      simp [attrsDefaultKw, sortKwargs]
+  · generalize optInner t = inner
+    cases hp : c.postInitEff <;> cases hm : (c.withMeta && key != name) <;> cases inner <;>
+      simp [attrsDefaultKw, sortKwargs, Ty.isList, Ty.isDict]
+
+theorem fieldLine_attrs {c : RenderCfg} {o : RenderOracles} {e : RefEnv} {key : String} {t : Ty} {optional : Bool}
+    {imps : List Imp} {typing name : String}
+    (hfw : c.fw = .attrs)
+    (hty : typingCode c e t = .ok (imps, typing)) (hn : convertFieldName c o key = .ok name) :
+    fieldLine c o e key t optional =
+      .ok (imps ++ attrsConvImps c optional t, name ++ ": " ++ typing ++ " = attr.ib(" ++
+        renderKwargs (attrsDefaultKw (defaultKind optional t) ++ attrsConvKw c optional t ++ metaKw c o key name)
+          ++ ")") := by
+  rw [fieldLine_attrs_raw hfw hty hn, attrsKwRaw_eq, sortKwargs_attrs]
+
+/-! ### dataclasses -/
+
+def dcDefaultKw : Option DefaultKind → List (String × String)
+  | Option.none => []
+  | some .none => [("default", "None")]
+  | some .emptyList => [("default_factory", "list")]
+  | some .emptyDict => [("default_factory", "dict")]
+
+/-- right-hand side of a dataclass field -/
+def dcBody (kw : List (String × String)) : String :=
+  match kw with
+  | [] => ""
+  | [("default", d)] => " = " ++ d
+  | kw => " = field(" ++ renderKwargs kw ++ ")"
+
+/-- the keyword computation of the dataclasses `field_data`, verbatim -/
+def dcKwRaw (optional : Bool) (t : Ty) : List (String × String) :=
+  let inner := optInner t
+  if optional then
+    if inner.isList then [("default_factory", "list")]
+    else if inner.isDict then [("default_factory", "dict")]
+    else [("default", "None")]
+  else []
+
+def dcLineRaw (imps : List Imp) (line : String) (kw : List (String × String)) : Except PyErr (List Imp × String) :=
+  match kw with
+  | [] => pure (imps, line)
+  | [("default", d)] => pure (imps, line ++ " = " ++ d)
+  | kw => pure (imps, line ++ " = field(" ++ renderKwargs (sortKwargs kw ["default", "default_factory"] ["metadata"]) ++ ")")
+
+theorem fieldLine_dc_raw {c : RenderCfg} {o : RenderOracles} {e : RefEnv} {key : String} {t : Ty} {optional : Bool}
+    {imps : List Imp} {typing name : String}
+    (hfw : c.fw = .dataclasses)
+    (hty : typingCode c e t = .ok (imps, typing)) (hn : convertFieldName c o key = .ok name) :
+    fieldLine c o e key t optional =
+      dcLineRaw imps (name ++ ": " ++ typing) (dcKwRaw optional t ++ metaKw c o key name) := by
+  simp only [fieldLine, hty, hn, bind, Except.bind, hfw]; rfl
+
+theorem dcKwRaw_eq (optional : Bool) (t : Ty) : dcKwRaw optional t = dcDefaultKw (defaultKind optional t) := by
+  unfold dcKwRaw defaultKind
+  cases optional
+  · rfl
+  · by_cases h1 : (optInner t).isList = true
+    · simp [h1, dcDefaultKw]
+    · by_cases h2 : (optInner t).isDict = true <;> simp [h1, h2, dcDefaultKw]
+
+theorem dcLineRaw_eq (c : RenderCfg) (o : RenderOracles) (key name : String) (imps : List Imp) (line : String)
+    (d : Option DefaultKind) :
+    dcLineRaw imps line (dcDefaultKw d ++ metaKw c o key name)
+      = .ok (imps, line ++ dcBody (dcDefaultKw d ++ metaKw c o key name)) := by
+  unfold metaKw
+  cases hm : (c.withMeta && key != name) <;> rcases d with _ | _ | _ | _ <;>
+    simp [dcDefaultKw, dcLineRaw, dcBody, sortKwargs, pure, Except.pure, String.append_assoc]
+
+theorem fieldLine_dc {c : RenderCfg} {o : RenderOracles} {e : RefEnv} {key : String} {t : Ty} {optional : Bool}
+    {imps : List Imp} {typing name : String}
+    (hfw : c.fw = .dataclasses)
+    (hty : typingCode c e t = .ok (imps, typing)) (hn : convertFieldName c o key = .ok name) :
+    fieldLine c o e key t optional =
+      .ok (imps, name ++ ": " ++ typing ++ dcBody (dcDefaultKw (defaultKind optional t) ++ metaKw c o key name)) := by
+  rw [fieldLine_dc_raw hfw hty hn, dcKwRaw_eq, dcLineRaw_eq]
+
+theorem fieldLine_base {c : RenderCfg} {o : RenderOracles} {e : RefEnv} {key : String} {t : Ty} {optional : Bool}
+    {imps : List Imp} {typing name : String}
+    (hfw : c.fw = .base)
+    (hty : typingCode c e t = .ok (imps, typing)) (hn : convertFieldName c o key = .ok name) :
+    fieldLine c o e key t optional = .ok (imps, name ++ ": " ++ typing) := by
+  simp only [fieldLine, hty, hn, bind, Except.bind, hfw]; rfl
+
+/-- `fieldLine` fails exactly when the annotation or the field name does -/
+theorem fieldLine_error {c : RenderCfg} {o : RenderOracles} {e : RefEnv} {key : String} {t : Ty} {optional : Bool}
+    {err : PyErr} (h : fieldLine c o e key t optional = .error err) :
+    typingCode c e t = .error err ∨ convertFieldName c o key = .error err := by
+  cases hty : typingCode c e t with
+  | error e1 => simp [fieldLine, hty, bind, Except.bind] at h; exact .inl (by rw [h])
+  | ok r =>
+    obtain ⟨imps, typing⟩ := r
+    cases hn : convertFieldName c o key with
+    | error e2 => simp [fieldLine, hty, hn, bind, Except.bind] at h; exact .inr (by rw [h])
+    | ok name =>
+      exfalso
+      cases hfw : c.fw
+      · rw [fieldLine_base hfw hty hn] at h; cases h
+      · rw [fieldLine_pyd (.inl hfw) hty hn] at h; cases h
+      · rw [fieldLine_pyd (.inr hfw) hty hn] at h; cases h
+      · rw [fieldLine_attrs hfw hty hn] at h; cases h
+      · rw [fieldLine_dc hfw hty hn] at h; cases h
+
+section Repr
+open J2M.Strings
+
+/-! ## `repr(str)` read back by the Python string-literal reader -/
+
+theorem char_toNat_le (c : Char) : c.toNat ≤ 0x10FFFF := by
+  have := c.valid
+  unfold UInt32.isValidChar Nat.isValidChar at this
+  show c.val.toNat ≤ _
+  omega
+
+theorem lexGoQ_esc_x2 (q : Char) (hq : q ≠ '\\') {n : Nat} (h : n < 256) (rest : List Char) :
+    lexGoQ q .normal ('\\' :: 'x' :: hexPad 2 n ++ rest) = lexCons n (lexGoQ q .normal rest) := by
+  have e : n / 16 % 16 * 16 + n % 16 = n := by omega
+  have h1 : n / 16 % 16 < 16 := Nat.mod_lt _ (by decide)
+  have h2 : n % 16 < 16 := Nat.mod_lt _ (by decide)
+  have hle : n ≤ 1114111 := by omega
+  have hb : ¬ ('\\' = q) := fun e => hq e.symm
+  simp only [hexPad_two, List.cons_append, List.nil_append, lexGoQ, hexVal_hexDigit h1, hexVal_hexDigit h2, hb]
+  simp only [Nat.zero_mul, Nat.zero_add, e]
+  simp [hle]
+
+theorem lexGoQ_esc_u4 (q : Char) (hq : q ≠ '\\') {n : Nat} (h : n < 65536) (rest : List Char) :
+    lexGoQ q .normal ('\\' :: 'u' :: hexPad 4 n ++ rest) = lexCons n (lexGoQ q .normal rest) := by
+  have e : (((n / 16 / 16 / 16 % 16 * 16 + n / 16 / 16 % 16) * 16 + n / 16 % 16) * 16 + n % 16) = n := by
+    omega
+  have hd : ∀ m : Nat, m % 16 < 16 := fun m => Nat.mod_lt _ (by decide)
+  have hle : n ≤ 1114111 := by omega
+  have hb : ¬ ('\\' = q) := fun e => hq e.symm
+  simp only [hexPad_four, List.cons_append, List.nil_append, lexGoQ, hexVal_hexDigit (hd _), hb]
+  simp only [Nat.zero_mul, Nat.zero_add, e]
+  simp [hle]
+
+theorem lexGoQ_esc_U8 (q : Char) (hq : q ≠ '\\') {n : Nat} (h : n ≤ 0x10FFFF) (rest : List Char) :
+    lexGoQ q .normal ('\\' :: 'U' :: hexPad 8 n ++ rest) = lexCons n (lexGoQ q .normal rest) := by
+  have e : (((((((n / 16 / 16 / 16 / 16 / 16 / 16 / 16 % 16) * 16 + n / 16 / 16 / 16 / 16 / 16 / 16 % 16) * 16 +
+      n / 16 / 16 / 16 / 16 / 16 % 16) * 16 + n / 16 / 16 / 16 / 16 % 16) * 16 + n / 16 / 16 / 16 % 16) * 16 +
+      n / 16 / 16 % 16) * 16 + n / 16 % 16) * 16 + n % 16 = n := by omega
+  have hd : ∀ m : Nat, m % 16 < 16 := fun m => Nat.mod_lt _ (by decide)
+  have hle : n ≤ 1114111 := h
+  have hb : ¬ ('\\' = q) := fun e => hq e.symm
+  simp only [hexPad_eight, List.cons_append, List.nil_append, lexGoQ, hexVal_hexDigit (hd _), hb]
+  simp only [Nat.zero_mul, Nat.zero_add, e]
+  simp [hle]
+
+/-- a character `repr` leaves as it is reads back as itself -/
+theorem lexGoQ_plain (q : Char) {c : Char} (h1 : c ≠ q) (h2 : c ≠ '\\') (h3 : ¬ c.toNat < 32) (rest : List Char) :
+    lexGoQ q .normal (c :: rest) = lexCons c.toNat (lexGoQ q .normal rest) := by
+  have hn : c ≠ '\n' := by intro h; subst h; exact h3 (by decide)
+  have hr : c ≠ '\r' := by intro h; subst h; exact h3 (by decide)
+  have h0 : c.toNat ≠ 0 := by omega
+  simp [lexGoQ, h1, h2, hn, hr, h0]
+
+/-- the escapes `repr` writes are read back with the same meaning -/
+theorem lexGoQ_reprEscChar (ip : Char → Bool) (q : Char) (hq : q = '\'' ∨ q = '"') (c : Char) (rest : List Char) :
+    lexGoQ q .normal (reprEscChar ip q c ++ rest) = lexCons c.toNat (lexGoQ q .normal rest) := by
+  have hqb : q ≠ '\\' := by rcases hq with rfl | rfl <;> decide
+  by_cases q1 : c = q
+  · subst q1
+    rcases hq with rfl | rfl <;> simp [reprEscChar, lexGoQ] <;> rfl
+  by_cases q2 : c = '\\'
+  · subst q2
+    have : ¬ ('\\' = q) := fun e => hqb e.symm
+    simp [reprEscChar, lexGoQ, this]
+  by_cases q3 : c = '\t'
+  · subst q3
+    have : ¬ ('\\' = q) := fun e => hqb e.symm
+    simp [reprEscChar, lexGoQ, q1, this]
+  by_cases q4 : c = '\n'
+  · subst q4
+    have : ¬ ('\\' = q) := fun e => hqb e.symm
+    simp [reprEscChar, lexGoQ, q1, this]
+  by_cases q5 : c = '\r'
+  · subst q5
+    have : ¬ ('\\' = q) := fun e => hqb e.symm
+    simp [reprEscChar, lexGoQ, q1, this]
+  by_cases q6 : c.toNat < 32 ∨ c.toNat = 127
+  · have : reprEscChar ip q c = '\\' :: 'x' :: hexPad 2 c.toNat := by
+      simp only [reprEscChar, q1, q2, q3, q4, q5, q6, false_or, if_false, if_true]
+    rw [this]; exact lexGoQ_esc_x2 q hqb (by omega) rest
+  have q6a : ¬ c.toNat < 32 := fun h => q6 (.inl h)
+  by_cases q7 : c.toNat < 127
+  · have : reprEscChar ip q c = [c] := by
+      simp only [reprEscChar, q1, q2, q3, q4, q5, q6, q7, false_or, if_false, if_true]
+    rw [this]; exact lexGoQ_plain q q1 q2 q6a rest
+  by_cases q8 : ip c = true
+  · have : reprEscChar ip q c = [c] := by
+      simp only [reprEscChar, q1, q2, q3, q4, q5, q6, q7, q8, false_or, if_false, if_true]
+    rw [this]; exact lexGoQ_plain q q1 q2 q6a rest
+  by_cases q9 : c.toNat < 256
+  · have : reprEscChar ip q c = '\\' :: 'x' :: hexPad 2 c.toNat := by
+      simp only [reprEscChar, q1, q2, q3, q4, q5, q6, q7, q8, q9, false_or, if_false, if_true]
+      simp
+    rw [this]; exact lexGoQ_esc_x2 q hqb q9 rest
+  by_cases q10 : c.toNat < 0x10000
+  · have : reprEscChar ip q c = '\\' :: 'u' :: hexPad 4 c.toNat := by
+      simp only [reprEscChar, q1, q2, q3, q4, q5, q6, q7, q8, q9, q10, false_or, if_false, if_true]
+      simp
+    rw [this]; exact lexGoQ_esc_u4 q hqb q10 rest
+  · have : reprEscChar ip q c = '\\' :: 'U' :: hexPad 8 c.toNat := by
+      simp only [reprEscChar, q1, q2, q3, q4, q5, q6, q7, q8, q9, q10, false_or, if_false]
+      simp
+    rw [this]; exact lexGoQ_esc_U8 q hqb (char_toNat_le c) rest
+
+theorem lexGoQ_body (ip : Char → Bool) (q : Char) (hq : q = '\'' ∨ q = '"') (s : List Char) (rest : List Char) :
+    lexGoQ q .normal (s.flatMap (reprEscChar ip q) ++ q :: rest) = some (s.map Char.toNat, rest) := by
+  induction s with
+  | nil => simp [lexGoQ]
+  | cons c cs ih =>
+    rw [List.flatMap_cons, List.append_assoc, lexGoQ_reprEscChar ip q hq, ih]
+    simp [lexCons]
+
+theorem reprQuote_cases (s : List Char) : reprQuote s = '\'' ∨ reprQuote s = '"' := by
+  unfold reprQuote; split <;> simp
+
+/-- a `repr` token followed by anything: the reader returns the string and that rest -/
+theorem lexReprTok_pyRepr (ip : Char → Bool) (s : List Char) (rest : List Char) :
+    lexReprTok (pyReprChars ip s ++ rest) = some (s.map Char.toNat, rest) := by
+  have hq := reprQuote_cases s
+  simp only [pyReprChars, List.cons_append, List.append_assoc, List.nil_append, lexReprTok]
+  rw [if_pos hq]
+  exact lexGoQ_body ip _ hq s rest
+
+theorem pyLexSingleOrDouble_pyRepr (ip : Char → Bool) (s : List Char) :
+    pyLexSingleOrDouble (pyReprChars ip s) = some (s.map Char.toNat) := by
+  have := lexReprTok_pyRepr ip s []
+  rw [List.append_nil] at this
+  simp [pyLexSingleOrDouble, this]
+
+end Repr
 
 end J2M.Rend
